@@ -524,6 +524,14 @@ class FnAnalysis:
                 if base is not None:
                     out.add(("var", base, names[vs.index(want)]))
                 return
+        if t.op == "ite":
+            # a boolean decision node one arm of which is a constant: `if c {false} else {y}` is true only when !c and y
+            c_, x_, y_ = t.args
+            for arm, other, cv in ((x_, y_, False), (y_, x_, True)):
+                if arm.op == "const" and bool(arm.args[1]) != truth:
+                    self._assume(out, c_, cv)
+                    self._assume(out, other, truth)
+                    break
         if t.op == "bin" and t.args[0] in ("BitAnd", "BitOr") and t.args[3] == "bool":
             if t.args[0] == "BitAnd" and truth:
                 self._assume(out, t.args[1], True)
@@ -876,17 +884,18 @@ class FnAnalysis:
                     return None
             extra = {("eq", d, v)}
             if eqt(v) is not None and eqt(v).op != "const":
-                extra.add(("true", eqt(v)))
+                # (through _assume: the comparison may have folded to a condition of its own, e.g. discr(if c {None} else {Some}) == 1 is !c)
+                self._assume(extra, eqt(v), True)
                 for w in listed:
-                    if w != v:
-                        extra.add(("false", eqt(w)))
+                    if w != v and eqt(w).op != "const":
+                        self._assume(extra, eqt(w), False)
             return facts | extra
         else:
             if ("eq", d, v) in facts:
                 return None
             extra = {("ne", d, v)}
             if eqt(v) is not None and eqt(v).op != "const":
-                extra.add(("false", eqt(v)))
+                self._assume(extra, eqt(v), False)
             return facts | extra
 
     def _case_facts(self, facts, base, vname):
@@ -1370,10 +1379,18 @@ class Program:
             return self.facts.by_id[cid]
         return None
 
-    def size_for_lower_bound(self, t):
+    def size_for_upper_bound(self, t):
+        """upper bound of ParseAt::size_for over the named impl, or over all in-crate impls for a type parameter"""
+        return self.size_for_lower_bound(t, upper=True)
+
+    def size_for_lower_bound(self, t, upper=False):
         """lower bound of ParseAt::size_for over the named impl, or over all in-crate impls for a type parameter"""
         from .prover import Prover
         f = t.args[0]
+        # `P::size_for(..)` whose type argument has become concrete (a generic helper instantiated with u32 / u64): that impl only
+        g0 = norm(t.args[1][0]) if (t.args[1] and isinstance(t.args[1][0], str)) else None
+        if not f.startswith("<") and g0 and any(fn_["qual"] == "<%s as parse::ParseAt>::size_for" % g0 for fn_ in self.facts.all_fns()):
+            f = "<%s as parse::ParseAt>::size_for" % g0
         cands = []
         for fn in self.facts.all_fns():
             q = fn["qual"]
@@ -1389,10 +1406,10 @@ class Program:
             rt = an.ret_term() if an else None
             if rt is None:
                 return None
-            l = Prover(an).lb(rt, ())
+            l = Prover(an).ub(rt, ()) if upper else Prover(an).lb(rt, ())
             if l is None:
                 return None
-            best = l if best is None else min(best, l)
+            best = l if best is None else (max(best, l) if upper else min(best, l))
         return best
 
     # ---- callee models ------------------------------------------------------------------
@@ -1552,7 +1569,9 @@ class Program:
                     rx = _re.compile(r"\b(%s)\b" % "|".join(_re.escape(k) for k in tm))
                     a = (a[0], tuple(rx.sub(lambda m: tm[m.group(1)], g) if isinstance(g, str) else g for g in a[1]), a[2])
                 # a function-valued parameter has become known: apply it now
-                if a[0] in ("ops::FnOnce::call_once", "ops::Fn::call", "ops::FnMut::call_mut") and len(cargs) == 2:
+                if a[0] in ("mem::size_of", "mem::align_of") and not cargs:
+                    r = self.size_of_const(a[0], a[1])
+                elif a[0] in ("ops::FnOnce::call_once", "ops::Fn::call", "ops::FnMut::call_mut") and len(cargs) == 2:
                     f = cargs[0].args[0] if cargs[0].op == "refval" else cargs[0]
                     if f.op in ("agg", "fnptr", "zst") and cargs[1].op == "agg" and cargs[1].args[0] == "tuple":
                         r = self.apply_fn(an, st, f, list(cargs[1].args[4]))
@@ -1611,8 +1630,41 @@ class Program:
         except KeyError:
             return None
 
+    def size_of_const(self, name, generics):
+        """mem::size_of::<T>() / align_of for a fixed-width integer or one of the crate's repr(C) structs of such integers: the layout
+        the compiler computed (target independent for these types; C19 checks the repr(C) structs field by field)"""
+        if not generics or not isinstance(generics[0], str):
+            return None
+        ty = norm(generics[0])
+        key = "size" if name.endswith("size_of") else "align"
+        fixed = {"u8": 1, "i8": 1, "u16": 2, "i16": 2, "u32": 4, "i32": 4, "u64": 8, "i64": 8, "u128": 16, "i128": 16}
+        if ty in fixed and key == "size":
+            return T.const("usize", fixed[ty])
+        adt = self.facts.adts.get(ty)
+        if adt is not None and adt.get("repr_c") and adt.get("layout") and adt["kind"] == "Struct" \
+                and all(fd["ty"] in fixed for fd in adt["variants"][0]["fields"]):
+            return T.const("usize", adt["layout"][key])
+        return None
+
     def _core_model(self, an, st, nq, dq, generics, args, arg_tys, callee):
         name = dq
+        if name in ("iter::ExactSizeIterator::len", "iter::Iterator::count") and len(args) == 1:
+            # the number of whole chunks of size n in a slice is len / n
+            it = self._val(an, st, args[0])
+            if it.op == "call" and it.args[0] in ("[T]::chunks_exact", "[T]::rchunks_exact") and len(it.args[2]) == 2:
+                return T.bin("Div", T.length(it.args[2][0]), it.args[2][1], "usize")
+        import re as _re
+        m_ = _re.match(r"^(u8|u16|u32|u64|u128|usize)::checked_(rem|div)$", name)
+        if m_ and len(args) == 2:
+            # None exactly for a zero divisor (unsigned: no other failure)
+            ty_ = m_.group(1)
+            v_ = T.bin("Rem" if m_.group(2) == "rem" else "Div", args[0], args[1], ty_)
+            return T.ite(T.bin("Eq", args[1], T.const(ty_, 0), ty_), T.agg("adt", "option::Option", 0, "None", []),
+                         T.agg("adt", "option::Option", 1, "Some", [v_]))
+        if name in ("mem::size_of", "mem::align_of") and not args:
+            c_ = self.size_of_const(name, generics)
+            if c_ is not None:
+                return c_
         if name == "[T]::len" or nq == "[T]::len":
             return T.length(args[0])
         if name == "[T]::is_empty":
@@ -1815,6 +1867,11 @@ class Program:
                 for i, v in enumerate(ad["variants"]):
                     if v["name"] == vn and len(v["fields"]) == len(argvals):
                         return T.agg("adt", owner, i, vn, list(argvals))
+            import re as _re
+            m_ = _re.match(r"^<(\w+) as (?:std::|core::)?convert::From<(\w+)>>::from$", q)
+            if m_ and m_.group(1) in INT_BITS and m_.group(2) in INT_BITS and len(argvals) == 1:
+                # `u64::from` used as a function value: the lossless widening conversion
+                return argvals[0] if m_.group(1) == m_.group(2) else T.cast("IntToInt", argvals[0], m_.group(2), m_.group(1))
             if q.startswith("<") or "{" in q:
                 return None
             comb = self._combinator(an, st, q, list(argvals)) if argvals else None
